@@ -342,7 +342,9 @@ func (u c09Union) Schema() J {
 	case "meta":
 		s["properties"] = J{"meta": J{"type": "string"}}
 	case "kind":
-		s["properties"] = J{c09DP: J{"type": "string"}}
+		// next to the discriminator property another string member that sorts after it: the discriminator is that one
+		// property, not the last string member of the union
+		s["properties"] = J{c09DP: J{"type": "string"}, "zone": J{"type": "string"}}
 	}
 	if u.Fixed != "" {
 		s["type"] = "object"
